@@ -1,11 +1,14 @@
 import PiqpModel
 import PiqpModel.Driver.KKTCmd
 import PiqpModel.Driver.SolCmd
+import PiqpModel.Driver.SkelCmd
 open Piqp Piqp.Driver
 
 structure DState where
   km : Option KM := none
   sm : Option SM := none
+  skelH : Option SkelHeader := none
+  skelObs : Array (String × Array Float) := #[]
 
 def handle (st : DState) (line : String) : DState × List String :=
   let toks := (line.trimAscii.toString.splitOn " ").filter (· ≠ "")
@@ -25,6 +28,21 @@ def handle (st : DState) (line : String) : DState × List String :=
         match runP (kmStep km cmd) args with
         | .ok (km', out) => ({ st with km := some km' }, out)
         | .error e => (st, ["error " ++ e])
+    else if cmd = "skel.begin" then
+      match runP parseHeader args with
+      | .ok h => ({ st with skelH := some h, skelObs := #[] }, [])
+      | .error e => (st, ["error " ++ e])
+    else if cmd = "skel.o" then
+      match args with
+      | kind :: vals =>
+        match vals.mapM floatOfHex with
+        | some fs => ({ st with skelObs := st.skelObs.push (kind, fs.toArray) }, [])
+        | none => (st, ["error bad observation"])
+      | [] => (st, ["error empty observation"])
+    else if cmd = "skel.end" then
+      match st.skelH with
+      | some h => ({ st with skelH := none, skelObs := #[] }, skelReplay h st.skelObs.toList)
+      | none => (st, ["error skel.end without begin"])
     else if cmd = "sol.new" then
       match runP smNew args with
       | .ok sm => ({ st with sm := some sm }, [])
